@@ -97,6 +97,18 @@ CLAIMED = {
          "Decides for all key sets/scripts: multi-sig parameters validated before building/accepting, keys sorted before emission and the sorted list is what is emitted (order-free address), scripts accepted only after ExpectEOF and key-count equality. parse(build(x)) == x as a value identity is not decided.",
          "keypair.SortPublicKeys is a total order on keys.",
          "DESIGN.md §4 C23"),
+ "C31": ("guard analysis (A2) on getCommitConsensus/newBlockCommitment + verified-before-counted rule (A15) over the readers of blockCommitMsg.EndorsersSig",
+         "Decides necessary conditions for all message sets: a proposer is returned only where the size of a per-proposer set keyed by signer index reaches the threshold (distinct signers); one commit per committer; a received commit reaches the pool only after blockCommitMsg.Verify; every field counted toward the quorum must be signature-verified on the intake path. One known finding: endorser signatures inside commit messages are counted but never verified. The threshold formula itself (C28) is not decided.",
+         "Signature primitives are sound; message intake is Server.run -> receiveFromPeer -> onConsensusMsg.",
+         "DESIGN.md §4 C31"),
+ "C35": ("guard analysis (A2) on TXPool.addEIPTxPool, on every VBFT call site of IncrementValidator.Verify, and a parallel-update (pairing) rule on the validator's two windows",
+         "Decides structural necessary conditions for all histories: same-nonce replacement only on a strictly higher gas price of the looked-up slot; pool transactions enter a proposal / a received proposal is processed only on Verify==nil with one fresh nonce context shared by the whole selection; the validator's hash and nonce windows are always updated together; Verify rejects duplicate hashes and wrong next nonces and advances the context only after that test. Consecutive-run and duplicate freedom over whole histories are not decided.",
+         "go/ssa CFG; the nonce context is the map passed as third argument of Verify.",
+         "DESIGN.md §4 C35"),
+ "C36": ("critical-section analysis (A14: lock/unlock typestate on the SSA CFG) + guard analysis (A2) + who-may-call (A4) on ConnectController",
+         "Decides for all schedules the structural condition that makes the limits race-free: insertions into the inbound/outbound sets happen only in savePeer, inside the mutex critical section in which the size of that same set (and the per-IP count for inbound) was compared with the configured limit; removals take the same mutex; the dial-in-flight marker is released only by its acquirer. A genuine check-then-act defect found by this rule was repaired. Does not model the network or reserved-peer filtering.",
+         "sync.Mutex semantics; deferred Unlock runs at function exit.",
+         "DESIGN.md §4 C36"),
  "C33": ("guard analysis (A2) with all-checks-fail interpretation + sibling rule (A11) on header_sync.VerifyHeader",
          "Decides for all side-chain headers: acceptance requires the 2/3 threshold on the listed bookkeepers, membership of every listed key, pairwise distinct keys (a repeated key aborts), and VerifyMultiSignature over the header's hash/keys/signatures with threshold = number listed; headers are stored only after verification. A genuine defect (repeated bookkeeper accepted) found by the distinctness rule was repaired.",
          "Cryptographic soundness of signature verification.",
